@@ -98,13 +98,14 @@ class SchemaDocGen:
             if n == "Int":
                 return G.v_int(r.choice(["0", "7", "-3"]))
             if n == "Float":
-                return r.choice([{"k": "float", "v": "1.5"}, G.v_int("2")])
+                # an Int literal coerces to Float whatever its magnitude (only Int positions are bound to 32 bits)
+                return r.choice([{"k": "float", "v": "1.5"}, G.v_int("2"), G.v_int("1700000000000"), G.v_int("-9007199254740993"), {"k": "float", "v": "1e400"}])
             if n == "String":
                 return G.v_str(r.choice(["", "s", "two words"]))
             if n == "Boolean":
                 return {"k": "bool", "v": r.chance(1, 2)}
             if n == "ID":
-                return r.choice([G.v_str("id"), G.v_int("9")])
+                return r.choice([G.v_str("id"), G.v_int("9"), G.v_int("1212092628029698048"), G.v_int("-2147483649")])
             return r.choice([G.v_str("custom"), G.v_int("1")])
         if k == "enum":
             return {"k": "enum", "v": r.choice(self.types[n]["values"])["name"]}
@@ -329,7 +330,7 @@ OPERATORS = ["rename-field", "leaf-subselection", "composite-no-selection", "unk
              "inline-on-enum", "inline-on-input", "inline-on-scalar", "retarget-inline", "fragment-on-enum", "fragment-on-input",
              "unreached-self-cycle", "unreached-mutual-cycle", "fault-behind-unreached-cycle",
              "subscription-second-alias", "subscription-second-alias-inline", "subscription-second-alias-spread",
-             "nullable-var-in-defaulted-list", "dup-operation-other-kind"]
+             "nullable-var-in-defaulted-list", "dup-operation-other-kind", "second-op-fragment-variable"]
 
 
 def inject(doc, operator, site, disjoint_type="Lone", names=None):
@@ -488,6 +489,14 @@ def inject(doc, operator, site, disjoint_type="Lone", names=None):
         x = nth([o for o in ops if o["hasName"]])
         if not x: return None
         d["defs"].append(copy.deepcopy(x))
+    elif operator == "second-op-fragment-variable":
+        # two operations reach the SAME fragment, which uses a variable: the first defines it properly, the second does not define it
+        # (site even) or defines it with an incompatible type (site odd)
+        root = (names or {}).get("root")
+        if not root or any(not o["hasName"] for o in ops) or site > 3: return None
+        d["defs"].append(G.frag("VarFr", [G.field("__typename", None, None, [G.directive("include", [G.arg("if", G.v_var("shared"))])])], root))
+        d["defs"].append(G.op("UsesFirst", [G.spread("VarFr")], "query", [G.vardef("shared", G.nn(G.named("Boolean")))]))
+        d["defs"].append(G.op("UsesSecond", [G.spread("VarFr")], "query", [] if site % 2 == 0 else [G.vardef("shared", G.named("Int"))]))
     elif operator == "dup-operation-other-kind":
         # operation names are unique across ALL operations of a document, whatever their kind
         x = nth([o for o in ops if o["hasName"]])
